@@ -514,7 +514,16 @@ static void f_adaptive_encode(ctx *c) {
             snprintf(b, sizeof(b), "adaptive.encode.selects.%s", c18_tname[buf[0]]);
             vf_class(b);
         }
-        adaptive_roundtrip(c, buf, len, cap, -1, "varintAdaptiveEncode");
+        if (len > varintAdaptiveMaxSize(n)) {
+            /* success with more bytes than the advertised bound: a caller who
+             * allocated varintAdaptiveMaxSize(n) has been overflowed */
+            bad(c, "bound",
+                "varintAdaptiveEncode returned %zu bytes for %zu values, "
+                "varintAdaptiveMaxSize promises at most %zu",
+                len, n, varintAdaptiveMaxSize(n));
+        } else {
+            adaptive_roundtrip(c, buf, len, cap, -1, "varintAdaptiveEncode");
+        }
     }
     free(buf);
 }
